@@ -11,7 +11,7 @@ import (
 var nsNames = []string{"default", "ns1", "ns2", "ns3"}
 var wlNames = []string{"a", "b", "c", "web", "db"}
 var labelKeys = []string{"app", "tier", "env", "a", "b", "ab"}
-var labelVals = []string{"x1", "x2", "web", "db", "c"}
+var labelVals = []string{"x1", "x2", "web", "db", "c", ""} // the empty string is a valid label value
 var portNames = []string{"http", "dns", "metrics"}
 var protos = []string{"TCP", "UDP", "SCTP"}
 var portPool = []int{80, 1, 2, 53, 79, 81, 443, 8080, 8081, 65534, 65535}
